@@ -156,7 +156,7 @@ def handle (line : String) : String :=
       if !c.atEnd then none
       let nan : Float := 0.0 / 0.0
       let res := ThermalC.phpy_get_thermal_properties E (fun _ => 0.0) (fun k => ts.getD k nan)
-        (fun k => fr.getD k nan) (fun k => w.getD k nan) nt nq nb cut (clInt cl) (fun _ => nan) nan
+        (fun k => fr.getD k nan) (fun k => w.getD k nan) nt nq nb cut (clInt cl) (fun _ => nan)
       pure (showFs (Array.ofFn (n := nt * 3) fun i => res i.1))
     | "temprange" =>
       let (h0, c) ← bool? c
